@@ -33,12 +33,25 @@ def method(kind, *names):
 def eval_args(eng, e, st, fr, k):
     """Evaluate positional and keyword arguments; ``k(args, kwargs, st)``."""
     pos = []
-    for a in e.args:
+    starred = set()
+    for j, a in enumerate(e.args):
         if isinstance(a, ast.Starred):
-            raise Unsupported("*args in call")
-        pos.append(a)
+            starred.add(j)
+            pos.append(a.value)
+        else:
+            pos.append(a)
 
     def got_pos(args, s1):
+        if starred:
+            flat = []
+            for j, v in enumerate(args):
+                if j in starred:
+                    if not isinstance(v, (list, tuple)):
+                        raise Unsupported("*args of a non-literal sequence")
+                    flat.extend(v)
+                else:
+                    flat.append(v)
+            args = flat
         kws = e.keywords
 
         def go(i, s2, acc):
